@@ -26,7 +26,9 @@ def const(name, v):
 def gen(rng):
     nsvc = rng.choice([1, 2, 2, 3])
     # how the identification value is reachable in the response: 0 plain, 1 inside a structure (SNPATHREF)
-    svcs = [dict(j=j + 1, shape=rng.choice([0, 0, 1])) for j in range(nsvc)]
+    # 2 plain, behind another positive response which decodes the same reply but lacks the parameter; 3 inside the
+    # items of an end-of-PDU field (any item may match, none if the field is empty)
+    svcs = [dict(j=j + 1, shape=rng.choice([0, 0, 1, 2, 3])) for j in range(nsvc)]
     flavour = rng.choice(["ecu", "ecu", "base"])
     nvar = rng.choice([0, 1, 2, 3, 4])
     variants = []
@@ -51,25 +53,43 @@ def emit(case):
             f'{U8}<PHYSICAL-TYPE BASE-DATA-TYPE="A_UINT32"/></DATA-OBJECT-PROP>')
     structs = ('<STRUCTURE ID="BV.st"><SHORT-NAME>st</SHORT-NAME><PARAMS><PARAM xsi:type="VALUE"><SHORT-NAME>id</SHORT-NAME>'
                '<DOP-REF ID-REF="BV.dop"/></PARAM></PARAMS></STRUCTURE>')
+    fields = ('<END-OF-PDU-FIELDS><END-OF-PDU-FIELD ID="BV.eop"><SHORT-NAME>eop</SHORT-NAME><BASIC-STRUCTURE-REF ID-REF="BV.st"/>'
+              '</END-OF-PDU-FIELD></END-OF-PDU-FIELDS>')
+    VAL = {0: '<PARAM xsi:type="VALUE"><SHORT-NAME>id</SHORT-NAME><DOP-REF ID-REF="BV.dop"/></PARAM>',
+           1: '<PARAM xsi:type="VALUE"><SHORT-NAME>data</SHORT-NAME><DOP-REF ID-REF="BV.st"/></PARAM>',
+           2: '<PARAM xsi:type="VALUE"><SHORT-NAME>id</SHORT-NAME><DOP-REF ID-REF="BV.dop"/></PARAM>',
+           3: '<PARAM xsi:type="VALUE"><SHORT-NAME>items</SHORT-NAME><DOP-REF ID-REF="BV.eop"/></PARAM>'}
+    OTHER = '<PARAM xsi:type="VALUE"><SHORT-NAME>other</SHORT-NAME><DOP-REF ID-REF="BV.dop"/></PARAM>'
+
+    def responses(pre, j, shape, lead=""):
+        """(POS-RESPONSE-REFS content, POS-RESPONSE elements) of identification service j"""
+        refs = res = ""
+        if shape == 2:
+            refs += f'<POS-RESPONSE-REF ID-REF="{pre}.pr{j}x"/>'
+            res += (f'<POS-RESPONSE ID="{pre}.pr{j}x"><SHORT-NAME>pr{j}x</SHORT-NAME><PARAMS>{const("sid", 0x62)}{const("a", 0xF1)}'
+                    f'{const("b", j)}{lead}{OTHER}</PARAMS></POS-RESPONSE>')
+        refs += f'<POS-RESPONSE-REF ID-REF="{pre}.pr{j}"/>'
+        res += (f'<POS-RESPONSE ID="{pre}.pr{j}"><SHORT-NAME>pr{j}</SHORT-NAME><PARAMS>{const("sid", 0x62)}{const("a", 0xF1)}'
+                f'{const("b", j)}{lead}{VAL[shape]}</PARAMS></POS-RESPONSE>')
+        return refs, res
+
     svc = reqs = resps = ""
     for s in case["services"]:
         j = s["j"]
+        refs, res = responses("BV", j, s["shape"])
         svc += (f'<DIAG-SERVICE ID="BV.svc{j}"><SHORT-NAME>ident{j}</SHORT-NAME><REQUEST-REF ID-REF="BV.rq{j}"/>'
-                f'<POS-RESPONSE-REFS><POS-RESPONSE-REF ID-REF="BV.pr{j}"/></POS-RESPONSE-REFS></DIAG-SERVICE>')
+                f'<POS-RESPONSE-REFS>{refs}</POS-RESPONSE-REFS></DIAG-SERVICE>')
         reqs += (f'<REQUEST ID="BV.rq{j}"><SHORT-NAME>rq{j}</SHORT-NAME><PARAMS>{const("sid", 0x22)}{const("a", 0xF1)}{const("b", j)}</PARAMS></REQUEST>')
-        if s["shape"] == 0:
-            val = '<PARAM xsi:type="VALUE"><SHORT-NAME>id</SHORT-NAME><DOP-REF ID-REF="BV.dop"/></PARAM>'
-        else:
-            val = '<PARAM xsi:type="VALUE"><SHORT-NAME>data</SHORT-NAME><DOP-REF ID-REF="BV.st"/></PARAM>'
-        resps += (f'<POS-RESPONSE ID="BV.pr{j}"><SHORT-NAME>pr{j}</SHORT-NAME><PARAMS>{const("sid", 0x62)}{const("a", 0xF1)}{const("b", j)}{val}</PARAMS></POS-RESPONSE>')
+        resps += res
 
     def mp(p, tag):
         shape = next(s["shape"] for s in case["services"] if s["j"] == p["svc"])
-        out = ('<OUT-PARAM-IF-SNREF SHORT-NAME="id"/>' if shape == 0 else '<OUT-PARAM-IF-SNPATHREF SHORT-NAME-PATH="data.id"/>')
+        out = {0: '<OUT-PARAM-IF-SNREF SHORT-NAME="id"/>', 1: '<OUT-PARAM-IF-SNPATHREF SHORT-NAME-PATH="data.id"/>',
+               2: '<OUT-PARAM-IF-SNREF SHORT-NAME="id"/>', 3: '<OUT-PARAM-IF-SNPATHREF SHORT-NAME-PATH="items.id"/>'}[shape]
         phys = "" if tag == "MATCHING-PARAMETER" else f"<USE-PHYSICAL-ADDRESSING>{'true' if p['phys'] else 'false'}</USE-PHYSICAL-ADDRESSING>"
         return (f'<{tag}><EXPECTED-VALUE>{p["expected"]}</EXPECTED-VALUE><DIAG-COMM-SNREF SHORT-NAME="ident{p["svc"]}"/>{out}{phys}</{tag}>')
 
-    body = (f'<DIAG-DATA-DICTIONARY-SPEC><DATA-OBJECT-PROPS>{dops}</DATA-OBJECT-PROPS><STRUCTURES>{structs}</STRUCTURES></DIAG-DATA-DICTIONARY-SPEC>'
+    body = (f'<DIAG-DATA-DICTIONARY-SPEC><DATA-OBJECT-PROPS>{dops}</DATA-OBJECT-PROPS><STRUCTURES>{structs}</STRUCTURES>{fields}</DIAG-DATA-DICTIONARY-SPEC>'
             f'<DIAG-COMMS>{svc}</DIAG-COMMS><REQUESTS>{reqs}</REQUESTS><POS-RESPONSES>{resps}</POS-RESPONSES>')
     if case["flavour"] == "ecu":
         evs = ""
@@ -81,15 +101,12 @@ def emit(case):
                 lsvc = lreq = lres = ""
                 for s in case["services"]:
                     j = s["j"]
-                    lsvc += (f'<DIAG-SERVICE ID="EV{i}.svc{j}"><SHORT-NAME>ident{j}</SHORT-NAME><REQUEST-REF ID-REF="EV{i}.rq{j}"/>'
-                             f'<POS-RESPONSE-REFS><POS-RESPONSE-REF ID-REF="EV{i}.pr{j}"/></POS-RESPONSE-REFS></DIAG-SERVICE>')
-                    lreq += (f'<REQUEST ID="EV{i}.rq{j}"><SHORT-NAME>rq{j}</SHORT-NAME><PARAMS>{const("sid", 0x22)}{const("a", 0xF1)}{const("b", j)}</PARAMS></REQUEST>')
                     rev = '<PARAM xsi:type="VALUE"><SHORT-NAME>rev</SHORT-NAME><DOP-REF ID-REF="BV.dop"/></PARAM>'
-                    if s["shape"] == 0:
-                        val = '<PARAM xsi:type="VALUE"><SHORT-NAME>id</SHORT-NAME><DOP-REF ID-REF="BV.dop"/></PARAM>'
-                    else:
-                        val = '<PARAM xsi:type="VALUE"><SHORT-NAME>data</SHORT-NAME><DOP-REF ID-REF="BV.st"/></PARAM>'
-                    lres += (f'<POS-RESPONSE ID="EV{i}.pr{j}"><SHORT-NAME>pr{j}</SHORT-NAME><PARAMS>{const("sid", 0x62)}{const("a", 0xF1)}{const("b", j)}{rev}{val}</PARAMS></POS-RESPONSE>')
+                    refs, res = responses(f"EV{i}", j, s["shape"], rev)
+                    lsvc += (f'<DIAG-SERVICE ID="EV{i}.svc{j}"><SHORT-NAME>ident{j}</SHORT-NAME><REQUEST-REF ID-REF="EV{i}.rq{j}"/>'
+                             f'<POS-RESPONSE-REFS>{refs}</POS-RESPONSE-REFS></DIAG-SERVICE>')
+                    lreq += (f'<REQUEST ID="EV{i}.rq{j}"><SHORT-NAME>rq{j}</SHORT-NAME><PARAMS>{const("sid", 0x22)}{const("a", 0xF1)}{const("b", j)}</PARAMS></REQUEST>')
+                    lres += res
                 local = f"<DIAG-COMMS>{lsvc}</DIAG-COMMS><REQUESTS>{lreq}</REQUESTS><POS-RESPONSES>{lres}</POS-RESPONSES>"
             evs += (f'<ECU-VARIANT ID="EV{i}"><SHORT-NAME>EV{i}</SHORT-NAME>{local}'
                     + (f"<ECU-VARIANT-PATTERNS>{px}</ECU-VARIANT-PATTERNS>" if px else "") +
@@ -110,11 +127,17 @@ def emit(case):
             f'<DIAG-LAYER-CONTAINER ID="DLC"><SHORT-NAME>DLC</SHORT-NAME>{layers}</DIAG-LAYER-CONTAINER></ODX>')
 
 
-def ref_match(p, resp, layout=0):
+def ref_match(p, resp, layout=0, shape=0):
     """independent reference: does the response satisfy the matching parameter?
     (a CODED-CONST mismatch only warns, so only the length and the value byte count)"""
     k = 3 + layout
+    if shape == 3:  # a field of one-byte items behind the constants: any item
+        return len(resp) >= k and any(str(b) == p["expected"] for b in resp[k:])
     return len(resp) > k and str(resp[k]) == p["expected"]
+
+
+def shape_of(c, p):
+    return next(s["shape"] for s in c["services"] if s["j"] == p["svc"])
 
 
 def run_impl(case, db, ecu, use_cache):
@@ -152,7 +175,8 @@ def main(argv=None):
             rqs = [bytes([0x22, 0xF1, s["j"]]) for s in c["services"]]
             # every response function over a small alphabet of answers (exhaustive for <= 2 services)
             answers = lambda j: [bytes([0x62, 0xF1, j, 1, 2]), bytes([0x62, 0xF1, j, 2, 1]), bytes([0x62, 0xF1, j, 0, 0]),
-                                 bytes([0x62, 0xF1, j, 0]), bytes([0x7F, 0x22, 0x31]), b"", bytes([0x7F, 0x22, 0x31, 0x02, 0x00])]
+                                 bytes([0x62, 0xF1, j, 0]), bytes([0x7F, 0x22, 0x31]), b"", bytes([0x7F, 0x22, 0x31, 0x02, 0x00]),
+                                 bytes([0x62, 0xF1, j])]
             combos = list(itertools.product(*[answers(s["j"]) for s in c["services"]]))
             if len(combos) > (36 if quick else 216):
                 combos = rng.sample(combos, 36 if quick else 216)
@@ -176,7 +200,7 @@ def main(argv=None):
                     for p in pat:
                         pid += 1
                         for rs, rid in resp_ids.items():
-                            m_t.append([pid, rid, ref_match(p, rs, c.get("layouts", [0] * 99)[vi_])])
+                            m_t.append([pid, rid, ref_match(p, rs, c.get("layouts", [0] * 99)[vi_], shape_of(c, p))])
                         pp.append([p["svc"], pid])
                     vp.append(pp)
                 vs.append(vp)
@@ -212,7 +236,7 @@ def main(argv=None):
             # the specification
             want = None
             for i, pats in enumerate(c["variants"]):
-                if any(all(ref_match(p, ecu[bytes([0x22, 0xF1, p["svc"]])], c.get("layouts", [0] * 99)[i]) for p in pat) for pat in pats):
+                if any(all(ref_match(p, ecu[bytes([0x22, 0xF1, p["svc"]])], c.get("layouts", [0] * 99)[i], shape_of(c, p)) for p in pat) for pat in pats):
                     want = f"EV{i}"
                     break
             allowed = {bytes([0x22, 0xF1, p["svc"]]) for pats in c["variants"] for pat in pats for p in pat}
